@@ -28,7 +28,8 @@ def _outer_states(c, outer, ie0):
 # Every gadget-layer contract (C01-C07) is proved per flag/guard MODE; the modes are exactly the states these three
 # functions establish and restore (errors off while ANY enclosing guard is false, LinComb.ONE = the current guard,
 # state restored on every exit).  Their clauses are therefore obligations of each of those properties, not of C08 only.
-MODE_STATE_PROPS = ("C01", "C02", "C03", "C04", "C05", "C06", "C07", "C08", "C09")     # C09: nested oblivious blocks ARE nested guards
+MODE_STATE_PROPS = ("C01", "C02", "C03", "C04", "C05", "C06", "C07", "C08", "C09",      # C09: nested oblivious blocks ARE nested guards
+                    "C14", "C15", "C16", "C17", "C20")          # ... and the gadgets of these properties are proved per mode as well
 
 
 @register
@@ -39,8 +40,9 @@ class AddGuard(Contract):
     assigns = GUARD_STATE
     vprops = MODE_STATE_PROPS
     fprops = MODE_STATE_PROPS
-    facets = "VRFTNK"
-    cprops = sprops = eprops = ()
+    facets = "VRFTNSK"
+    cprops = eprops = ()
+    sprops = ("C02", "C03", "C08", "C09")
     tprops = ("C06",)       # entering a nested region must cost the same constraints whatever the outer guard's value
     guard_relevant = False
     modules = ("pysnark.runtime", "pysnark.boolean")
@@ -103,6 +105,11 @@ class AddGuard(Contract):
             d["V.conjunction"] = Implies(both01, Eq(c.v(now["guard"]), If(And(c.v(e["guard"]) == 1, c.v(cond) == 1), 1, 0)))
             d["V.inv"] = c.inv(now["guard"])
             d["canary.V.conjunction"] = Implies(both01, Eq(c.v(now["guard"]), c.v(cond)))
+            # for a dishonest prover too: with both conditions as given and the enclosing region LIVE, the nested
+            # guard's wire is the conjunction (inside a dead region the conjunction gadget is itself switched off:
+            # the nested guard is then free, which only lets the prover switch dead code ON)
+            d["S.conjunction_determined"] = Implies(And(c.tied(e["guard"]), c.tied(cond), both01, c.v(e["guard"]) == 1),
+                                                    c.eva(now["guard"]) == c.v(now["guard"]) % c.p)
         return d
 
     def post_exc(self, c, e_, cond):
